@@ -251,8 +251,8 @@ func (s *Set) c01(w *simapi.Write, v *simapi.View) {
 		img := workloadImage(w.After)
 		if img != st.epochImg && img != s.stableImg && held(w.Before, s.S.Kind) && !held(w.After, s.S.Kind) && s.phase == "Progressing" {
 			s.count("c01_hold_lifts_checked", 1)
-			s.violate("C01", fmt.Sprintf("c01:hold-lifted-for-unreleased-revision:%s/%s", s.S.Kind, s.S.Style), fmt.Sprintf("%s lifted the hold on %s (%s) while its template is %s, a revision the Rollout has not started to release (the release in progress / being cleaned up is for %s): every pod may move to it at once",
-				w.Actor, w.Key, holdStr(w.Before, s.S.Kind), img, st.epochImg), w, nil)
+			s.violate("C01", "c01:hold-lifted-for-unreleased-revision", fmt.Sprintf("%s/%s: %s lifted the hold on %s (%s) while its template is %s, a revision the Rollout has not started to release (the release in progress / being cleaned up is for %s): every pod may move to it at once",
+				s.S.Kind, s.S.Style, w.Actor, w.Key, holdStr(w.Before, s.S.Kind), img, st.epochImg), w, nil)
 		}
 	}
 	if s.st10.superseding && s.inRolling() {
@@ -266,7 +266,11 @@ func (s *Set) c01(w *simapi.Write, v *simapi.View) {
 			if br := v.Get("BatchRelease", s.ns, s.S.RolloutName()); br != nil && !simapi.Deleting(br) && simapi.Str(br, "status.phase") == "Progressing" {
 				how = "stale-batchrelease-continues-with-new-revision"
 			}
-			s.violate("C01", fmt.Sprintf("c01:exposure-raised-during-supersession:%s:%s/%s", how, s.S.Kind, s.S.Style), fmt.Sprintf("%s raised the new-revision target of %s from %d to %d pods (replicas %d) while the superseded release is being reset and the new one has not reached any step (%s)",
+			fp := fmt.Sprintf("c01:exposure-raised-during-supersession:%s:%s/%s", how, s.S.Kind, s.S.Style)
+			if how == "stale-batchrelease-continues-with-new-revision" {
+				fp = "c01:exposure-raised-during-supersession:" + how // one root cause whatever the workload kind
+			}
+			s.violate("C01", fp, fmt.Sprintf("%s raised the new-revision target of %s from %d to %d pods (replicas %d) while the superseded release is being reset and the new one has not reached any step (%s)",
 				w.Actor, w.Key, st.lastExp, exp, R, how), w, nil)
 		}
 		return
@@ -504,6 +508,10 @@ func (s *Set) c18(w *simapi.Write, v *simapi.View) {
 		}
 	case "TrafficRouting":
 		const f = "rollouts.kruise.io/trafficrouting"
+		// remember what the user's routing looked like before the custom resource started to route
+		if w.After != nil && !hasProgressingFinalizer(w.Before) && hasProgressingFinalizer(w.After) && s.prev != nil {
+			s.trOrigRoutes = jsonStr(interp.Routes(s.prev, s.ns))
+		}
 		if hasFinalizer(w.Before, f) && (w.After == nil || !hasFinalizer(w.After, f)) {
 			s.count("c18_finalizer_removals_checked", 1)
 			s.addSet("c18_removals", "TrafficRouting")
@@ -511,8 +519,27 @@ func (s *Set) c18(w *simapi.Write, v *simapi.View) {
 			if s.canary != s.stable && (cr.Share > 0 || cr.Match || v.Get("Service", s.ns, s.canary) != nil) {
 				s.violate("C18", "c18:trafficrouting-finalizer-removed-before-cleanup", fmt.Sprintf("%s removed the TrafficRouting finalizer while canary routing is still configured (share=%d match=%v canarySvc=%v)", w.Actor, cr.Share, cr.Match, v.Get("Service", s.ns, s.canary) != nil), w, nil)
 			}
+			if s.S.TRCR && s.trOrigRoutes != "" {
+				// the resource routes to the stable Service itself (no canary Service): "cleanup complete" = the user's
+				// routing is back to what it was
+				if now := jsonStr(interp.Routes(v, s.ns)); now != s.trOrigRoutes {
+					s.violate("C18", "c18:trafficrouting-finalizer-removed-before-routes-restored:"+providerKind(s.S.Provider), fmt.Sprintf("%s removed the TrafficRouting finalizer while the gateway resources still carry its routing: %s (before it started: %s)", w.Actor, now, s.trOrigRoutes), w, nil)
+				}
+			}
 		}
 	}
+}
+
+func hasProgressingFinalizer(o simapi.Obj) bool {
+	if o == nil {
+		return false
+	}
+	for _, f := range simapi.Finalizers(o) {
+		if strings.HasPrefix(f, "progressing.rollouts.kruise.io") {
+			return true
+		}
+	}
+	return false
 }
 
 func firstWord(s string) string {
